@@ -318,3 +318,6 @@ def run(ctx):
     rule_budget(F, R)
     rule_tune(F, R)
     rule_optimum(F, R)
+    from . import c11
+    # what a (trial, fold) task stores is what the callback returned: (train|valid, errors|losses) -> its own slot and coordinates
+    c11.rule_slots(F, R, rule="R-C13-8", with_evaluate=False)
